@@ -198,8 +198,12 @@ def heap_wf_axioms(h):
     k = z3.Const("k!", V)
     al = z3.And(r >= 0, r < h.alloc)
     ax = []
-    ax.append(forall([r], z3.Implies(al, h.llen(r) >= 0), [h.llen(r)]))
-    ax.append(forall([r], z3.Implies(al, h.dlen(r) >= 0), [h.dlen(r)]))
+    # sizes are non-negative and the key enumeration is a bijection for EVERY object (also those a value-mode function
+    # or its callees allocate later: their contents are assumed consistently with this)
+    ax.append(forall([r], h.llen(r) >= 0, [h.llen(r)]))
+    ax.append(forall([r], h.dlen(r) >= 0, [h.dlen(r)]))
+    al0 = al
+    al = z3.BoolVal(True)
     # enumeration <-> membership (bijection between [0,dlen) and the key set)
     ax.append(forall([r, k], z3.Implies(z3.And(al, h.dhas(r, k)),
                                         z3.And(h.a["didx"][r][k] >= 0, h.a["didx"][r][k] < h.dlen(r),
@@ -209,6 +213,7 @@ def heap_wf_axioms(h):
                                         z3.And(h.dhas(r, h.dkey(r, i)), h.a["didx"][r][h.dkey(r, i)] == i)),
                      [h.dkey(r, i)]))
     # closed: every reference stored in an allocated object is allocated
+    al = al0
     ax.append(forall([r, i], z3.Implies(z3.And(al, i >= 0, i < h.llen(r), is_ref(h.lget(r, i))),
                                         V.rv(h.lget(r, i)) < h.alloc), [h.lget(r, i)]))
     ax.append(forall([r, k], z3.Implies(z3.And(al, h.dhas(r, k), is_ref(h.dget(r, k))),
